@@ -138,7 +138,7 @@ struct Model {
     return worst;
   }
   static bool mk_match(int mk, int k, int a) {
-    switch (mk) { case MK_ANY: return true; case MK_EQ: case MK_VAL: return a == k; case MK_LT: return a < k; case MK_NE: return a != k; case MK_GE: return a >= k; }
+    switch (mk) { case MK_ANY: case MK_ANYM: return true; case MK_EQ: case MK_VAL: return a == k; case MK_LT: return a < k; case MK_NE: return a != k; case MK_GE: return a >= k; }
     return false;
   }
   static bool with_eval(int mode, int a) {
@@ -147,7 +147,7 @@ struct Model {
   }
   bool params_match(const MExp& e, int a1, int a2, bool* p1 = nullptr, bool* p2 = nullptr) const {
     const Shape& sh = g_shapes[e.shape];
-    bool m1 = mk_match(sh.mk1, e.k1, a1);
+    bool m1 = sh.fn == Z0 ? true : mk_match(sh.mk1, e.k1, a1);
     bool m2 = sh.fn == F2 ? mk_match(sh.mk2, e.k2, a2) : true;
     if (p1) *p1 = m1;
     if (p2) *p2 = m2;
@@ -173,6 +173,7 @@ struct Model {
     return v;
   }
   static std::string args_str(int fn, int a1, int a2) {
+    if (fn == Z0) return "";
     std::ostringstream o; o << (int)a1; if (fn == F2) o << ',' << (int)a2; return o.str();
   }
   void soft_name_around(int slot) {
